@@ -359,8 +359,75 @@ def run(ctx):
             if pl0 is not None and not pl0["p"] and pl0["l"] in re0:
                 RE.add(l0)
     ctx.count("FEATSPAN", "record-end flags of the reader", len(RE))
+    # the number of *output* bytes of the read (tuple member 2) and the arm taken for the
+    # InputEmpty outcome (csv-core: enum ReadFieldResult { InputEmpty, OutputFull, Field{..}, End })
+    nout = set()
+    resl = set()
+    for b0, i0, s0 in fa.stmts():
+        rv0 = s0.get("rv") or {}
+        pl0 = op_place(rv0.get("op")) if rv0.get("k") == "use" else None
+        if pl0 is not None and pl0["l"] == rdest and len(pl0["p"]) == 1 and isinstance(pl0["p"][0], dict) \
+                and not s0["lhs"]["p"]:
+            if pl0["p"][0].get("f") == 2:
+                nout.add(s0["lhs"]["l"])
+            elif pl0["p"][0].get("f") == 0:
+                resl.add(s0["lhs"]["l"])
+    field_dc = set()
+    for b0, i0, s0 in fa.stmts():
+        o0 = (s0.get("rv") or {}).get("op")
+        pl0 = op_place(o0) if isinstance(o0, dict) else None
+        for e in (pl0 or {}).get("p") or []:
+            if isinstance(e, dict) and e.get("n") == "Field" and "dc" in e:
+                field_dc.add(e["dc"])
+    ie_arms = set()
+    for b0 in sorted(fa.live_blocks()):
+        t0 = fa.term(b0)
+        if t0["k"] != "switch":
+            continue
+        o0 = fa.origin(t0["op"])
+        if o0[0] == "rv" and o0[1]["k"] == "discr":
+            dl = o0[1]["place"]
+            if (dl["l"] in resl and not dl["p"]) or (dl["l"] == rdest and len(dl["p"]) == 1 and
+                                                     isinstance(dl["p"][0], dict) and dl["p"][0].get("f") == 0):
+                ie_arms.add(dict(zip(t0["vals"], t0["targets"])).get(0, t0["otherwise"]))
+    eof_clause = bool(ie_arms) and bool(nout) and field_dc <= {2}
+    err_calls = {b0 for b0, t0 in fa.calls() if "invalid_format" in " ".join(_paths(t0))}
+    eof_bad = {}
+
+    def nout_eval(t):
+        """Outcome of a switch that compares the output count with 0, given that it is 0."""
+        o = fa.origin(t["op"])
+        if o[0] != "rv" or o[1]["k"] != "binop" or o[1]["op"] not in ("Eq", "Ne", "Gt", "Lt", "Ge", "Le"):
+            return None
+        a_, b_ = o[1]["a"], o[1]["b"]
+
+        def is_nout(op):
+            pl = op_place(op)
+            for _ in range(6):
+                if pl is None:
+                    return False
+                if (pl["l"] in nout and not pl["p"]) or (pl["l"] == rdest and len(pl["p"]) == 1 and
+                                                         isinstance(pl["p"][0], dict) and pl["p"][0].get("f") == 2):
+                    return True
+                d = fa.single_def(pl["l"]) if not pl["p"] else None
+                if d is None or d[2] != "assign" or d[3]["k"] != "use":
+                    return False
+                pl = op_place(d[3]["op"])
+            return False
+
+        def is_zero(op):
+            k = op_const(op)
+            if k is None:
+                oo = fa.origin(op)
+                k = oo[1] if oo[0] == "const" else None
+            return k is not None and k.get("int") == 0
+        if is_nout(a_) and is_zero(b_):
+            return {"Eq": True, "Ne": False, "Gt": False, "Lt": False, "Ge": True, "Le": True}[o[1]["op"]]
+        if is_nout(b_) and is_zero(a_):
+            return {"Eq": True, "Ne": False, "Gt": False, "Lt": False, "Ge": True, "Le": True}[o[1]["op"]]
+        return None
     unreset = {}
-    start = (0, 0, "Z", "S", tuple("?" for _ in flags), "-")
+    start = (0, 0, "Z", "S", tuple("?" for _ in flags), "-", "-")
     seen = {start}
     pred = {}
     work = [start]
@@ -369,12 +436,19 @@ def run(ctx):
     notes = set()
     foreign = set()
     while work:
-        b, c, lv, bv, fl, en = entry = work.pop()
+        b, c, lv, bv, fl, en, ie = entry = work.pop()
         fl = list(fl)
         if b == rfb:
             if en == "E" and c != 0:
                 unreset.setdefault(c, entry)
             en = "-"
+            ie = "-"
+        # "I": the input ran out while no field of a row had been started (c == 0), and nothing
+        # was produced (taken as an assumption at the comparisons of the output count below)
+        if eof_clause and b in ie_arms and c == 0:
+            ie = "I"
+        if ie == "I" and b in err_calls:
+            eof_bad.setdefault(b, entry)
         nstates += 1
         if nstates > 200000:
             raise EngineError("FEATSPAN: state space too large")
@@ -452,6 +526,8 @@ def run(ctx):
                      [dict(zip(t["vals"], t["targets"])).get(4, t["otherwise"])] if 4 in t["vals"] else [t["otherwise"]]
             else:
                 ev = cmp_eval(t, c)
+                if ev is None and ie == "I":
+                    ev = nout_eval(t)
                 fl_l = _local_of(fa, t["op"])
                 if ev is None and fl_l in fidx and fa.origin(t["op"])[0] == "place" and fl[fidx[fl_l]] != "?":
                     ev = fl[fidx[fl_l]] == "T"
@@ -468,7 +544,7 @@ def run(ctx):
         for x in succ:
             if fa.blocks[x].get("cleanup"):
                 continue
-            st = (x, c, lv, bv, tuple(fl), "E" if x == ended_edge else en)
+            st = (x, c, lv, bv, tuple(fl), "E" if x == ended_edge else en, ie)
             if st not in seen:
                 seen.add(st)
                 pred[st] = entry
@@ -482,7 +558,7 @@ def run(ctx):
         out.reverse()
         # source lines with the abstract state, consecutive duplicates removed
         txt = []
-        for (b, c, lv, bv, _fl, _en) in out:
+        for (b, c, lv, bv, _fl, _en, _ie) in out:
             ln = fa.loc(b).rsplit(":", 1)[-1]
             item = "L%s[c=%s,len=%s,base=%s]" % (ln, c, lv, bv)
             if not txt or txt[-1] != item:
@@ -523,6 +599,16 @@ def run(ctx):
                "(e.g. on the path that skips an empty surface): the following rows are taken for "
                "further columns of that row and are silently dropped; path %s"
                % (names.get(C, "_%d" % C), sorted(unreset), path_to(unreset[sorted(unreset)[0]])))
+    if eof_clause:
+        ctx.ob("FEATSPAN", "input-end-at-a-row-start-is-not-a-row", not eof_bad, loc,
+               "when the input runs out before any field of a row was started and nothing was "
+               "produced (only blank lines, or the line feed after a final CR, were consumed), no "
+               "`row too short` error can follow" if not eof_bad else
+               "csv-core consumes blank lines silently: the read that hits the end of the input can "
+               "report consumed bytes, no output and no started row. That outcome reaches the `row "
+               "too short` error at %s - the only test in front of it is on the consumed count, not on "
+               "the output - so a lexicon that ends with a blank line (or CRLF) is rejected as a whole; "
+               "path %s" % (sorted(fa.loc(x) for x in eof_bad), path_to(eof_bad[sorted(eof_bad)[0]])))
     ctx.assume("FEATSPAN decides where the feature slice starts and which bytes its length counts; "
                "the off-by-one for the record terminator (len - 1, CRLF) is csv-core behaviour "
                "and is not decided")
